@@ -1483,6 +1483,7 @@ class Gen(object):
             add(3, self.g_observe)
             add(1, self.g_pow, 'derive_arith')
             add(1, self.g_probe_shift, 'derive_bits')
+            add(1, self.g_probe_repr_into_register, 'derive_reduce')
             if prop == 'C20':
                 add(2, lambda: self.g_shallow(('flatten', 'fxp_like')), 'derive_copy')
                 add(2, self.g_sort_inplace, 'mutate_index')
@@ -1837,13 +1838,60 @@ class Gen(object):
         self.queue.extend([reg, arm, use])
         return op1
 
+    def g_probe_repr_into_register(self):
+        """Integer formats end to end: an operand with n_frac = 0 built from integers (its get_val() is
+        its own buffer), a register of an integer format that can hold every value, and a function called
+        with method='repr' and out= that register - then an indexed write on one of the two."""
+        r = self.rng
+        signed = r.random() < 0.6
+        nw = r.randint(5, 12)
+        sh = r.choice([(2, 2), (2, 3), (3, 3), (3,), (4,)])
+        lo, hi = Q.bounds(signed, nw)
+        n = int(np.prod(sh))
+        vals = [[r.randint(max(lo, -20), min(hi, 20)), 0] for _ in range(n)]
+        op1 = {'op': 'new', 'val': ['a', 'int64', list(sh), vals], 'fmt': [signed, nw, 0], 'kw': {}}
+        st = {}
+
+        def idx(key):
+            c = self.cands()
+            return c.index(st[key]) if st.get(key) in c else None
+
+        def reg():
+            st['a'] = self.hot[0] if self.hot else None
+            return {'op': 'new', 'val': ['i', 0], 'fmt': [signed, nw + r.randint(1, 6), 0], 'kw': {}}
+
+        def use():
+            st['r'] = self.hot[0] if self.hot else None
+            ka, kr = idx('a'), idx('r')
+            if ka is None or kr is None:
+                return self.g_call()
+            fs = ['transpose', 'sum', 'sort', 'cumsum', 'max'] + (['diagonal', 'transpose', 'trace'] if len(sh) == 2 else [])
+            f = r.choice(fs)
+            op = {'op': 'reduce', 'f': f, 'a': ka, 'route': r.choice(['fn', 'fn', 'method']), 'out': kr,
+                  'method': r.choice(['repr', 'repr', 'raw'])}
+            if f in ('sum', 'cumsum', 'max', 'sort'):
+                op['axis'] = r.choice([None, 0]) if f != 'sort' else 0
+            return op
+
+        def poke():
+            k = idx(r.choice(['a', 'r']))
+            if k is None:
+                return self.g_call()
+            self.force = self.cands()[k]
+            op = self.g_setitem()
+            self.force = None
+            return op
+        self.queue.extend([reg, use, poke])
+        return op1
+
     def g_chain2(self):
         """Two ordinary steps in a row on the same object."""
         t = getattr(self, '_table', None) or self.table()
         fns = [fn for _, fn in t if getattr(fn, '__name__', '') not in ('g_chain2', 'g_probe_shift',
                                                                           'g_probe_bigstore_then_convert',
                                                                           'g_probe_aborted_resize_then_convert',
-                                                                          'g_probe_register_handler')]
+                                                                          'g_probe_register_handler',
+                                                                          'g_probe_repr_into_register')]
         a, b = self.rng.choice(fns), self.rng.choice(fns)
         op = a()
         self.on_last(b)
